@@ -9054,6 +9054,25 @@ class SVG(Group):
         yield from semiparse(nodes)
 
     @staticmethod
+    def _resolve_transform(transform, ppi, width, height):
+        """
+        Gives the transform string with its lengths resolved to user units, if it has lengths with units.
+        """
+        try:
+            plain = Matrix(transform)
+            if not isinstance(plain.e, Length) and not isinstance(plain.f, Length):
+                return transform
+        except ValueError:
+            pass
+        try:
+            m = Matrix(transform, ppi=ppi, width=width, height=height)
+        except ValueError:
+            return transform
+        if isinstance(m.e, Length) or isinstance(m.f, Length):
+            return transform
+        return "matrix(%r, %r, %r, %r, %r, %r)" % (m.a, m.b, m.c, m.d, m.e, m.f)
+
+    @staticmethod
     def parse(
         source,
         reify=True,
@@ -9191,6 +9210,11 @@ class SVG(Group):
                         attributes[SVG_ATTR_STROKE] = values[SVG_ATTR_COLOR]
 
                 if SVG_ATTR_TRANSFORM in attributes:
+                    # Lengths with units are resolved here, where the viewport is known: an unresolved
+                    # translate(1in) cannot be combined with the functions that follow it.
+                    attributes[SVG_ATTR_TRANSFORM] = SVG._resolve_transform(
+                        attributes[SVG_ATTR_TRANSFORM], ppi, width, height
+                    )
                     # If transform is already in values, append the new value.
                     if SVG_ATTR_TRANSFORM in values:
                         attributes[SVG_ATTR_TRANSFORM] = (
@@ -9277,7 +9301,9 @@ class SVG(Group):
                     s = Use(values)
                     if SVG_ATTR_TRANSFORM in s.values:
                         # Update value in case x or y applied.
-                        values[SVG_ATTR_TRANSFORM] = s.values[SVG_ATTR_TRANSFORM]
+                        values[SVG_ATTR_TRANSFORM] = SVG._resolve_transform(
+                            s.values[SVG_ATTR_TRANSFORM], ppi, width, height
+                        )
                     if SVG_ATTR_X in values:
                         del values[SVG_ATTR_X]
                     if SVG_ATTR_Y in values:
